@@ -47,7 +47,8 @@ THEOREMS = {
     "C06": _gt("init_sets_all", "init_fields", "limits_eq", "lenFilter_eq") + [("Eav.Props.C06", "Eav.Props.C06." + n) for n in
             ("isAsciiDomain_ok", "isIpv4_ok", "isIpv6_ok", "checkIp_ok", "isSpecialDomain_ok", "checkTld_ok", "isUtf8Domain_ok", "isEmail_ok", "step_isEmail_ok")] +
            [("Eav.Props.C13", "Eav.Props.C13." + n) for n in ("run_inv", "free_releases", "lifecycle_releases")] +
-           [("Eav.Props.C16", "Eav.Props.C16.no_abort"), ("Eav.Props.C09", "Eav.Props.C09.copyLabel_take"), ("Eav.Props.C15", "Eav.Props.C15.errcode_lt_max")],
+           [("Eav.Props.C16", "Eav.Props.C16.no_abort"), ("Eav.Props.C09", "Eav.Props.C09.copyLabel_take"), ("Eav.Props.C15", "Eav.Props.C15.errcode_lt_max")] +
+           [("Eav.Props.C06Cost", "Eav.Props.C06.Cost." + n) for n in ("isIpv4_linear", "isIpv6_linear", "specialTicks_linear", "tldTicks_le", "table_weight", "isTld_const")],
     "C07": _gt("errEnum_eq", "tldTypeEnum_eq") + [("Eav.Props.C07", "Eav.Props.C07." + n) for n in
             ("tldScan_eq_lookup", "isTld_eq_lookup", "whole_label", "case_insensitive", "isTld_eq_csv")] +
            [("Eav.Props.C07Api", "Eav.Props.C07." + n) for n in ("classified_by_last_label", "class_ignores_prefix", "single_label_not_fqdn", "api_record_any_mask")] +
@@ -2190,6 +2191,17 @@ def c06(ctx):
                         ir = int(line.split()[1]); break
             counts.append(ir)
         lin[fam] = counts
+        # the model's own byte counts (Eav/Cost.lean, proved linear in C06Cost.lean) against the measurement: the compiled code must not do
+        # more work per byte the model says it examines than a generous constant allows
+        if fam in toggles and toggles[fam] in ("is_ipv4", "is_ipv6", "is_tld", "is_special_domain"):
+            cops = ["c" + o for n in sizes for o in mk(n)]
+            ticks = [int(x.split(" ")[1]) for x in ctx.spec(cops)]
+            ctx.extra_cov.setdefault("model_ticks_per_family", {})[fam] = dict(zip(map(str, sizes), ticks))
+            for n, ir, tk in zip(sizes, counts, ticks):
+                if ir and ir > 150 * tk + 50000:
+                    ctx.S("the compiled %s executes far more instructions than the bytes the model examines can account for (instructions > 150 x ticks + 50000; the model's count is proved linear)" % toggles[fam],
+                          op=mk(n)[0][:200] + "...", family=fam, size=n, instructions=ir, model_ticks=tk)
+                    break
         ctx.evals += len(sizes) * len(mk(8))
         for a, b, n in zip(counts, counts[1:], sizes[1:]):
             if a and b and b > 2.3 * a + 20000:
